@@ -630,8 +630,12 @@ int __wrap_pthread_join(pthread_t th, void **ret)
 		return __real_pthread_join(th, ret);
 	int id = sim_task_of_pthread(th);
 
-	if (id < 0)
-		sim_fatal(SIM_F_INTERNAL, "join of unknown thread");
+	if (id < 0) {
+		/* the thread has been joined before and its slot reused (two overlapping rtr_stop calls on one socket were
+		 * observed doing this): what POSIX leaves undefined is answered like a thread that no longer exists */
+		sim_log(EV_JOIN, (uint64_t)-1, 0);
+		return ESRCH;
+	}
 	struct sim_task *t = &G.tasks[id];
 
 	while (t->state != T_DONE)
